@@ -376,6 +376,9 @@ pub async fn connect_write(args: &[&str]) -> String {
     let gs: Arc<crate::context::GlobalState> = Default::default();
     let ctx = gs.create_context("l".into(), "127.0.0.1:1".parse().unwrap()).await;
     ctx.write().await.set_target(parse_target(args[0]));
+    if args.len() > 2 && args[2] == "udp" {
+        ctx.write().await.set_feature(crate::context::Feature::UdpForward);
+    }
     let (st, sh) = ScriptedStream::new(parse_chunks(args[1]));
     let s = make_buffered_stream(st);
     let a: SocketAddr = "127.0.0.1:2".parse().unwrap();
